@@ -180,6 +180,49 @@ macro_rules! vcover {
     }};
 }
 
+/// Sub-second clock model. "now" is NOW + 0.5 s; a stamp is `age` whole seconds before NOW plus
+/// `nanos` ns (0 <= nanos < 1e9, not within 1 ms of the half second so that a native replay, whose
+/// clock drifts by microseconds, sees the same whole-second difference). The elapsed time is
+/// age + (0.5 - nanos/1e9) s, hence `elapsed_whole` whole seconds.
+pub const HALF: u32 = 500_000_000;
+#[cfg(kani)]
+pub fn stub_now_half() -> chrono::DateTime<chrono::Utc> {
+    let t = chrono::NaiveTime::from_num_seconds_from_midnight_opt(43200, HALF).unwrap();
+    chrono::NaiveDate::from_ymd_opt(2026, 1, 1).unwrap().and_time(t).and_utc()
+}
+pub fn now_half() -> chrono::DateTime<chrono::Utc> {
+    #[cfg(kani)]
+    {
+        stub_now_half()
+    }
+    #[cfg(not(kani))]
+    {
+        chrono::Utc::now()
+    }
+}
+pub fn any_nanos() -> u32 {
+    let n = any_below(1_000_000_000);
+    assume(n + 1_000_000 < HALF || n > HALF + 1_000_000);
+    n
+}
+pub fn stamp_ns(age: i64, nanos: u32) -> chrono::DateTime<chrono::Utc> {
+    #[cfg(kani)]
+    {
+        let secs = 43200 - age;
+        assume(secs >= 0 && secs < 86400);
+        let t = chrono::NaiveTime::from_num_seconds_from_midnight_opt(secs as u32, nanos).unwrap();
+        chrono::NaiveDate::from_ymd_opt(2026, 1, 1).unwrap().and_time(t).and_utc()
+    }
+    #[cfg(not(kani))]
+    {
+        chrono::Utc::now() - chrono::Duration::seconds(age) + chrono::Duration::nanoseconds(nanos as i64 - HALF as i64)
+    }
+}
+/// whole seconds between a `stamp_ns(age, nanos)` and `now_half()` (age >= 1, or nanos below the half second)
+pub fn elapsed_whole(age: i64, nanos: u32) -> i64 {
+    if nanos <= HALF { age } else { age - 1 }
+}
+
 pub(crate) use {vassert, vcover};
 
 /// a value in `0..n`
